@@ -179,6 +179,8 @@ METRIC_POOL = [
     (("minfinal", m), 0),
     (("over", ((b, 3), (p(o2), (1, 2)), (NOT(b), 2))), 1),
     (("over", ((p(o1), 1),)), 0),
+    # cost of a1 depends on a fluent that a1 itself can change (same ground action twice)
+    (("costs", (("a1", ("+", n, I(1))),), I(1)), 1),
 ]
 
 ACTIONS = (
@@ -347,6 +349,17 @@ def instances(level, slots=None, core_only=False, variant=None):
     """All instances with exactly `level` deviating slots among `slots`."""
     for cid in ids(level, slots, core_only, variant):
         yield cid, make(dict(cid), variant)
+
+
+def raw_eff_choice(slot, raw):
+    """index in pool(slot) of the entry that is eff_pool(...)[raw] (the *.eff1 pools are shifted)."""
+    ai = [a[0] for a in ACTIONS].index(slot.split(".")[0])
+    _an, _params, X, Y = ACTIONS[ai]
+    want = eff_pool(X, Y)[raw][0]
+    for i, (x, _c) in enumerate(pool(slot)):
+        if x == want:
+            return i
+    raise KeyError((slot, raw))
 
 
 def plan(tier, slots=None, extra_full=()):
